@@ -196,6 +196,9 @@ pub enum Val {
     Bin(u8),
     Oct(u32),
     ListI32(Vec<i32>),
+    /// fixed-capacity list: cloning it does not touch the heap (used where allocations are counted)
+    ArrList(arrayvec::ArrayVec<i32, 8>),
+    Enum(crate::props::enums_fixed::Fmt),
     Err(Error),
 }
 
@@ -219,6 +222,8 @@ pub fn put_val(r: &mut ResponseUnit, v: &Val) {
         Val::Bin(x) => r.data(Binary(*x)),
         Val::Oct(x) => r.data(Octal(*x)),
         Val::ListI32(x) => r.data(x.clone()),
+        Val::ArrList(x) => r.data(x.clone()),
+        Val::Enum(x) => r.data(*x),
         Val::Err(x) => r.data(*x),
     };
 }
@@ -246,6 +251,8 @@ pub fn val_text(v: &Val) -> core::result::Result<Vec<u8>, Error> {
         Val::Bin(x) => Binary(*x).format_response_data(&mut out),
         Val::Oct(x) => Octal(*x).format_response_data(&mut out),
         Val::ListI32(x) => x.format_response_data(&mut out),
+        Val::ArrList(x) => x.format_response_data(&mut out),
+        Val::Enum(x) => x.format_response_data(&mut out),
         Val::Err(x) => x.format_response_data(&mut out),
     }?;
     Ok(out)
